@@ -29,7 +29,13 @@ pub struct CreateOther {
     pub if_not_exists: bool,
     pub or_replace: bool,
 }
+pub struct CreateSlow {
+    pub name: String,
+    pub if_not_exists: bool,
+    pub or_replace: bool,
+}
 pub enum DdlStatement {
+    CreateSlow(CreateSlow),
     CreateOther(CreateOther),
     DropOther(DropOther),
     CreateTable(CreateTable),
@@ -149,5 +155,31 @@ impl SessionContext {
     }
     fn add_fresh(&self, name: &str) -> Result<(), DfError> {
         self.register_table(name, 1)
+    }
+    fn build(&self, name: &str) -> Result<u32, DfError> {
+        if name.is_empty() {
+            return Err(DfError::Other(7));
+        }
+        Ok(name.len() as u32)
+    }
+    /// seeded: the old object is deregistered before the fallible construction of the new one
+    pub fn create_slow(&self, cmd: CreateSlow) -> Result<DataFrame, DfError> {
+        let t = self.table(&cmd.name);
+        match (cmd.if_not_exists, cmd.or_replace, t) {
+            (true, false, Ok(_)) => self.return_empty_dataframe(),
+            (false, true, Ok(_)) => {
+                self.deregister_table(&cmd.name)?;
+                let v = self.build(&cmd.name)?;
+                self.register_table(&cmd.name, v)?;
+                self.return_empty_dataframe()
+            }
+            (true, true, Ok(_)) => Err(DfError::Execution("both".to_string())),
+            (_, _, Err(_)) => {
+                let v = self.build(&cmd.name)?;
+                self.register_table(&cmd.name, v)?;
+                self.return_empty_dataframe()
+            }
+            (false, false, Ok(_)) => Err(DfError::Execution("exists".to_string())),
+        }
     }
 }
